@@ -703,8 +703,8 @@ func (s *State) applyExtension(fn object.Extension, args []object.Object) object
 	}
 	if fn.MaxArgs == -1 {
 		// Only do this for true variadic functions (maxargs == -1)
-		if l > 0 && args[l-1].Type() == object.ARRAY {
-			args = append(args[:l-1], object.Elements(args[l-1])...)
+		if l > 0 && object.Value(args[l-1]).Type() == object.ARRAY { // (deref: an array of an outer scope too)
+			args = append(args[:l-1], object.Elements(object.Value(args[l-1]))...)
 			l = len(args)
 			log.Debugf("expending last arg now %d args %v", l, args)
 		}
@@ -832,8 +832,8 @@ func (s *State) extendFunctionEnv(
 		n := len(params) - 1
 		params = params[:n]
 		// Expending the last argument expecting it to be "..", but any other array will do too.
-		if len(args) > 0 && args[len(args)-1].Type() == object.ARRAY {
-			args = append(args[:len(args)-1], object.Elements(args[len(args)-1])...)
+		if len(args) > 0 && object.Value(args[len(args)-1]).Type() == object.ARRAY { // (deref: an array of an outer scope too)
+			args = append(args[:len(args)-1], object.Elements(object.Value(args[len(args)-1]))...)
 		}
 		if len(args) >= n {
 			extra = args[n:]
